@@ -11,7 +11,8 @@ CLAIMED = {'C01': {'design_ref': 'DESIGN.md §5 C01',
          'text': "Lean theorems: for every content, short-read pattern and block size the reader model's blocks "
                  'concatenate to the content with correct framing, independent of read splitting; for every event '
                  'script and configuration (wrap 0/1/None) the DATA packets of the transfer model are a prefix of '
-                 'the ideal numbered packet sequence and all of it unless the trace shows an abort; numbering '
+                 'the ideal numbered packet sequence and all of it unless the trace shows an abort, where an ERROR '
+                 "packet of the server's own only counts after the client's abort or after the whole sequence; numbering "
                  '1..65535 then the wrap value; without wrap value the sequence stops and an ERROR follows. Tied to '
                  'the code by running the real server on simulated sockets and evaluating the same Lean checker '
                  "(c01Check) on the implementation's trace."},
